@@ -125,6 +125,8 @@ pub fn expected_seen(p: &Param, long_data: Option<&[u8]>) -> (u8, Inner, Option<
             let s = std::str::from_utf8(ld).ok().map(|s| s.to_string());
             return (p.coltype, Inner::Bytes(ld.to_vec()), Some(Conv::Bytes(ld.to_vec())), s);
         }
+        // flagged NULL *and* streamed: not asserted (MySQL lets the long data win, this library the NULL bit)
+        return (UNASSERTED, Inner::Null, None, None);
     }
     match &p.value {
         PVal::Null => (p.coltype, Inner::Null, Some(Conv::NotTried), None),
@@ -186,11 +188,18 @@ pub fn expected_seen(p: &Param, long_data: Option<&[u8]>) -> (u8, Inner, Option<
 }
 
 /// compare what the shim saw with the model; returns the first discrepancy
+/// marker type code for "this parameter is not asserted" (a client that flags a parameter NULL and
+/// also streams long data for it: servers disagree on which wins)
+pub const UNASSERTED: u8 = 0xee;
+
 pub fn compare_seen(seen: &[SeenParam], want: &[(u8, Inner, Option<Conv>, Option<String>)], check_conv: bool) -> Result<(), String> {
     if seen.len() != want.len() {
         return Err(format!("shim was shown {} parameters, the statement declares {}", seen.len(), want.len()));
     }
     for (i, (s, (t, inner, conv, cstr))) in seen.iter().zip(want).enumerate() {
+        if *t == UNASSERTED {
+            continue;
+        }
         if s.coltype != *t {
             return Err(format!("parameter {}: shim sees type code {}, client bound {}", i, s.coltype, t));
         }
